@@ -272,3 +272,129 @@ class PreserveFlow(ReduceFlow):
 KERNELS_C14 = [UpdateAtFlow(), GetAtFlow()]
 KERNELS_C15 = [ReduceFlow(), PreserveFlow()]
 KERNELS = KERNELS_C14 + KERNELS_C15
+
+
+class DotFlow(_Flow):
+    """region of dot(): from the construction of the three matmul expressions to the end"""
+    id = "C08.P.dot_flow"
+    prop = "C08"
+    qual = "dot/dot"
+    describe = ("batched-matmul lowering of dot: left is rearranged to ((batch) (left-keep) (contract)), right to ((batch) (contract) (right-keep)), the product is ((batch) (left-keep) (right-keep)); "
+                "the batch axes appear in ONE order (the same list) in all three, likewise the contracted axes in left and right; every axis carries the length recorded for its name; "
+                "classical.matmul(left, right) is applied to the two rearranged tensors and its result is rearranged to the requested output")
+
+    def region(self, fnode):
+        import ast
+        body = fnode.body
+        a = [i for i, st in enumerate(body) if isinstance(st, ast.Assign) and ast.unparse(st.targets[0]) == "left_matmul_expr"]
+        if len(a) != 1:
+            raise LookupError("anchor `left_matmul_expr = ...` not found exactly once in dot()")
+        return body[a[0]:]
+
+    def setup(self, eng, bound=None):
+        self.common(eng)
+        self.lists = {}
+        env = {}
+        for nm in ("batch_axis_names", "left_keep_axis_names", "contract_axis_names", "right_keep_axis_names"):
+            arr, n = z3.Array(nm, I, Obj), z3.Int("n_" + nm)
+            self.lists[nm] = (arr, n)
+            env[nm] = SSeq(arr, n, "obj", "list")
+        self.mk = uf("stage3.Axis", Obj, Obj, Obj)
+        self.lengths = z3.Const("lengths", Obj)
+        self.getlen = uf("getitem[o]", Obj, Obj, Obj)
+        self.t1, self.t2 = SObj(z3.Const("tensor1", Obj)), SObj(z3.Const("tensor2", Obj))
+        self.e1, self.e2, self.out = expr_obj("expr1"), expr_obj("expr2"), expr_obj("out")
+
+        def c_axis(e, p, av, kw):
+            return SObj(self.mk(av[0].t, av[1].t))
+
+        def c_list(e, p, av, kw):
+            v = av[0]
+            r = V("List", of=v)
+            r.f["shape"] = V("shape_of", of=r)
+            return r
+
+        def c_flat(e, p, av, kw):
+            return V("Flat", of=av[0])
+
+        def c_id(e, p, av, kw):
+            r = named(V("id_result", args=STup(list(av)), kw=SDict(dict(kw))), kw.get("out"))
+            p.ghost["calls"] = list(p.ghost.get("calls", [])) + [("id", list(av), dict(kw), r.f["value"])]
+            r.f["value"].f["ndim"] = SInt(3)
+            return r
+
+        eng.contracts.update({"stage3.Axis": SContract(c_axis, "stage3.Axis(name, length)"), "stage3.List.create": SContract(c_list, "stage3.List.create"), "stage3.FlattenedAxis.create": SContract(c_flat, "stage3.FlattenedAxis.create"),
+                              "id": SContract(c_id, "id (rearrangement of a named tensor to the expression out=)"), "classical.matmul": self.rec("classical.matmul")})
+        eng.opaque_seq_kind = "obj"
+        env.update({"lengths": SObj(self.lengths), "tensor1": self.t1, "tensor2": self.t2, "expr1": self.e1, "expr2": self.e2, "out": self.out, "classical": SObj(z3.Const("classical", Obj)), "stage3": SObj(z3.Const("stage3", Obj))})
+        pre = [n >= 0 for _, n in self.lists.values()]
+        return env, pre, {}
+
+    def is_group(self, eng, p, flat, listname):
+        """flat = FlattenedAxis(List([Axis(name, lengths[name]) for name in <listname>])): returns a z3 Bool (False if the structure differs)"""
+        if kind(flat) != "Flat" or kind(flat.f["of"]) != "List":
+            return z3.BoolVal(False)
+        seq = flat.f["of"].f["of"]
+        try:
+            sq = eng.as_seq(seq, p, ek="obj")
+        except OutOfSubset:
+            return z3.BoolVal(False)
+        arr, n = self.lists[listname]
+        k = fresh("k")
+        return z3.And(sq.n == n, z3.ForAll([k], z3.Implies(z3.And(0 <= k, k < n), z3.Select(sq.arr, k) == self.mk(z3.Select(arr, k), self.getlen(self.lengths, z3.Select(arr, k))))))
+
+    def post(self, eng, out, p):
+        if not isinstance(out, Return):
+            eng.oblige("post:returns normally (the rearranged operands have rank 3)", p, z3.BoolVal(False), "post")
+            return
+        ids, mms = self.calls(p, "id"), self.calls(p, "classical.matmul")
+        ok = lambda name, cond: eng.oblige(name, p, z3.BoolVal(bool(cond)), "post")  # noqa
+        ok("post:three rearrangements and one matmul", len(ids) == 3 and len(mms) == 1)
+        if len(ids) != 3 or len(mms) != 1:
+            return
+
+        def groups(expr, names, what):
+            ch = expr.f["of"].items if kind(expr) == "List" and isinstance(expr.f["of"], STup) else None
+            if ch is None or len(ch) != 3:
+                eng.oblige(f"post:{what} is a list of three flattened groups", p, z3.BoolVal(False), "post")
+                return
+            for pos, (c, nm) in enumerate(zip(ch, names)):
+                eng.oblige(f"post:{what}: group {pos + 1} is exactly the {nm.replace('_axis_names', '').replace('_', '-')} axes, in the order of that list, each with its recorded length", p, self.is_group(eng, p, c, nm), "post")
+
+        L, R, O = ids[0], ids[1], ids[2]
+        ok("post:the left operand (tensor1 under expr1) is rearranged first, the right operand (tensor2 under expr2) second", L[1][0].f["value"] is self.t1 and L[1][0].f["expr"] is self.e1 and R[1][0].f["value"] is self.t2 and R[1][0].f["expr"] is self.e2)
+        groups(L[2]["out"], ["batch_axis_names", "left_keep_axis_names", "contract_axis_names"], "left matmul expression")
+        groups(R[2]["out"], ["batch_axis_names", "contract_axis_names", "right_keep_axis_names"], "right matmul expression")
+        mm = mms[0]
+        ok("post:classical.matmul is applied to (rearranged left, rearranged right)", len(mm[1]) == 2 and mm[1][0] is L[3] and mm[1][1] is R[3])
+        ok("post:the product is rearranged from the product expression to the requested output", O[1][0].f["value"] is mm[3] and O[2]["out"] is self.out)
+        groups(O[1][0].f["expr"], ["batch_axis_names", "left_keep_axis_names", "right_keep_axis_names"], "product expression")
+        r = out.v
+        ok("post:the result carries the requested output expression", isinstance(r, SRec) and r.cls == "NamedTensor" and r.f["value"] is O[3] and r.f["expr"] is self.out)
+
+    def twin(self, tier):
+        """native: numpylike dot with two batch axes in different relative order in the two operands, against einsum"""
+        import itertools
+        import numpy as np
+        import einx
+        n, fails = 0, []
+        rng = np.random.RandomState(0)
+        for lo, ro in itertools.product(list(itertools.permutations("ghik")), list(itertools.permutations("hgkj")))[:: (12 if tier == "quick" else 1)] if False else list(itertools.product(list(itertools.permutations("ghik")), list(itertools.permutations("hgkj"))))[:: (24 if tier == "quick" else 3)]:
+            n += 1
+            sz = {"g": 2, "h": 2, "i": 3, "k": 4, "j": 2}
+            x = rng.rand(*[sz[c] for c in lo])
+            y = rng.rand(*[sz[c] for c in ro])
+            desc = " ".join(f"[{c}]" if c == "k" else c for c in lo) + ", " + " ".join(f"[{c}]" if c == "k" else c for c in ro) + " -> g h i j"
+            try:
+                got = np.asarray(einx.dot(desc, x, y, backend="numpy.numpylike"))
+            except Exception as e:  # noqa
+                fails.append({"detail": f"einx.dot({desc!r}, backend='numpy.numpylike') raised {type(e).__name__}: {e}"})
+                continue
+            exp = np.einsum("".join(lo) + "," + "".join(ro) + "->ghij", x, y)
+            if got.shape != exp.shape or not np.allclose(got, exp):
+                fails.append({"detail": f"einx.dot({desc!r}, backend='numpy.numpylike') differs from einsum"})
+        return n, fails[:3]
+
+
+KERNELS_C08 = [DotFlow()]
+KERNELS = KERNELS + KERNELS_C08
